@@ -33,3 +33,14 @@ func VerifCounters() map[string]int64 {
 	}
 	return out
 }
+
+// VerifConnHook, when set, is told about the connection's critical sections
+// (under conn.mu) and the outcomes of subscription / mutation runs. key
+// identifies the subscription or mutation the event belongs to.
+var VerifConnHook func(kind string, id string, key interface{})
+
+func verifConn(kind string, id string, key interface{}) {
+	if h := VerifConnHook; h != nil {
+		h(kind, id, key)
+	}
+}
